@@ -11,23 +11,15 @@
    (color.Model interface value) is an opaque token of type Z.
 
    Domain of the correspondence model <-> code (the "guard"):
-     1 <= width, height, orgWidth, orgHeight < 2^31.
-   * The Go code computes the factor in float64:
-         int(float64(width)/float64(orgWidth))                         (1-D)
-         int(math.Min(float64(width)/float64(orgWidth),
-                      float64(height)/float64(orgHeight)))             (2-D)
-     Inside the guard both operands are exactly representable and the correctly
-     rounded quotient of a/b cannot cross an integer boundary: if a = q*b + r with
-     0 < r < b, then the distance from a/b to q+1 is (b-r)/b >= 1/b, while the
-     spacing of float64 numbers below q+1 <= 2^32/b is at most 2^-20/b; q and q+1
-     themselves are representable and rounding is monotone.  Hence
-     int(float64(a)/float64(b)) = a / b (integer division), and int(min(u,v)) =
-     min(int u, int v) for non-negative finite u, v.  The model uses go_div
-     (Z.quot).  The correspondence check hammers that boundary (widths k*w-1, k*w,
-     k*w+1 for k up to 2^30 / w).
-     OUTSIDE the guard this is false: above 2^53 float64(width) is rounded, e.g.
-     EAN-8 (w = 67), k = 134435809772260, width = 67*k - 1: the code uses factor k
-     although k*67 > width (reported as a finding; not covered by this model).
+     1 <= width, height, orgWidth, orgHeight < 2^62.
+   * Since the repair of the float64 factor computation (fix commit "Scale: compute the factor with
+     integer division") the Go code computes the factor as width / orgWidth (1-D) resp. the minimum of
+     width / orgWidth and height / orgHeight (2-D) in int arithmetic; the model uses go_div (Z.quot).
+     Inside the guard no intermediate value can leave the int64 range (orgWidth*factor <= width,
+     0 <= x - offset < width), so Z arithmetic is exact.  Before the repair the guard had to be 2^31
+     (float64 exactness); the correspondence check still hammers the old boundary (widths k*w-1, k*w,
+     k*w+1 for k up to 2^30 / w) and now also requests up to 2^62-1 whose products with the symbol
+     size exceed 2^63 (a comparison by cross-multiplication would overflow there).
    * orgWidth = 0 or orgHeight = 0 (a barcode with an empty image) makes the float
      division yield +Inf (or NaN for 0/0); the conversion of +Inf to int is
      implementation specific in Go (observed on amd64: a 1-D source 0 wide gives
